@@ -23,7 +23,7 @@ var poolStatic = []string{"/", "/a", "/ab", "/abc", "/b", "/a/b", "/a/b/c", "a"}
 var poolNamed = []string{"/{x}", "/{x}/b", "/{x}/bc", "/a/{x}", "/a/{x}/{y}", "/a/{x}/{y}/c", "/a/{x}-{y}", "/a/{x}-{y}.h", "/a{x}", "/{-x}/b", "/a/{-x}/{y}", "/a/{x}/", "/a/{z}/bd", "/{xy}/c", "/a/{xy}/d", "/a/{x}/bc"}
 var poolRegexp = []string{`/{x:\d+}`, `/a/{x:\d+}`, `/a/{x:\d+}.h`, `/a/{x:\d*}`, `/a/{x}/{y:\d+}`, `/a/{x:[ab]+}/b`, `/a/{-x:\d+}/c`, `/a/{x:\d+}/bc`, `/a/{x:\d}/q`, `/a/{x:\d+}/bd`, `/a/{-x:a|b}/c`, `/a/{x:a|ab}`}
 var poolGreedy = []string{`/{x:.+}/b`}
-var poolIcpt = []string{"/a/{x:digit}", "/a/{x:digit}/b", "/{x:word}/b", "/a/{x:any}", "/a/{-x:digit}/c", "/a/{x:any}bb", "/a/{x:digit}/cd", "/a/{x:digit}/ce"}
+var poolIcpt = []string{"/a/{x:digit}", "/a/{x:digit}/b", "/{x:word}/b", "/a/{x:any}", "/a/{-x:digit}/c", "/a/{x:any}bb", "/a/{x:digit}/cd", "/a/{x:digit}/ce", "/a/{x:range}-{y}", "/a/{x:range}-b"}
 var indexBlock = []string{"/c", "/d", "/e", "/f", "/g"}
 
 func poolD(ic string, tier string) []string {
@@ -40,7 +40,7 @@ func poolD(ic string, tier string) []string {
 	return d
 }
 
-var paramValues = []string{"", "1", "12", "a", "b", "z", "1/b", "a/b", "a-b", "1.h", "ab", "1bb"}
+var paramValues = []string{"", "1", "12", "a", "b", "z", "1/b", "a/b", "a-b", "1.h", "ab", "1bb", "1-2", "1-12-b"}
 
 // probeSet builds the finite probe set of a table.
 func probeSet(pats []*ref.Pattern, maxLen int) []string {
